@@ -335,16 +335,19 @@ def check_case(case):
     cgb = exact.conditioned_game(tgame, rb, pb, prune)
     compare("reachability", ra, rb, pa, pb, ptol)
     if not near_reach_p1:
+        # every state is compared, reachable from the initial state or not: the conditioned game of a stopping
+        # game is stopping as a whole, so all its values are presentation independent (small games: tolerance
+        # from the exact T_c of the whole conditioned game); boards: states in scope only (they need not stop)
         scope = set(range(n))
-        if prune:
-            scope = exact.forward_reachable(exact.conditioned_game(game, ra, pa, True), 0)
+        if prune and not small:
+            scope = exact.forward_reachable(cga, 0)
         if tolr is not None:
             for s in sorted(scope):
                 if abs(rwa[s] - rwb[pi[s]]) > tolr:
-                    v.fail("reward-depends-on-presentation", f"state {s} -> {pi[s]}: {rwa[s]!r} vs {rwb[pi[s]]!r} "
+                    where = "" if s in exact.forward_reachable(cga, 0) else " (a state not reachable from the initial state)"
+                    v.fail("reward-depends-on-presentation", f"state {s} -> {pi[s]}{where}: {rwa[s]!r} vs {rwb[pi[s]]!r} "
                                                              f"(tol {tolr:.3g}, transformation {t['which']})")
                     break
-        # final strategies only for states in scope (others are not claimed)
         sa = [fa[s] if s in scope else (None if game["players"][s] == PR else fb[pi[s]] and
               [a_ for a_, _ in game["transition_list"][s] if rho.get(a_, a_) in fb[pi[s]]]) for s in range(n)]
         compare("final", sa, fb, rwa, rwb, rtol)
